@@ -111,4 +111,159 @@ theorem surj_eq (d t x : Nat) (h1 : nside d ≤ t) (h2 : t + 2 ≤ 3 * nside d) 
          not_false_eq_true]
        omega)
 
+theorem valid_of_mk (d k m i j : Nat) (hk : k < 3) (hm : m < 4) (hi : i < nside d) (hj : j < nside d) :
+    Valid d ⟨4 * k + m, i, j⟩ := by
+  rw [nside_eq] at hi hj
+  exact ⟨by dsimp only; omega, hi, hj⟩
+
+/-- every RING number of the depth is the image of valid parts (every depth) -/
+theorem toRing_surj (d r : Nat) (hr : r < 12 * 4 ^ d) : ∃ p, Valid d p ∧ toRingParts d p = some r := by
+  have hns := nside_pos d
+  rw [four_pow_eq] at hr
+  obtain ⟨t, ht, h1, h2⟩ := ring_exists (nside d) hns r hr
+  obtain ⟨x, rfl⟩ : ∃ x, r = ringStart (nside d) t + x := ⟨r - ringStart (nside d) t, by omega⟩
+  have hx : x < ringLen (nside d) t := by omega
+  suffices h : ∃ k m i j, k < 3 ∧ m < 4 ∧ i < nside d ∧ j < nside d ∧ ringOf (nside d) ⟨4 * k + m, i, j⟩ = t ∧
+      inRing (nside d) ⟨4 * k + m, i, j⟩ = x by
+    obtain ⟨k, m, i, j, hk, hm, hi, hj, e1, e2⟩ := h
+    refine ⟨⟨4 * k + m, i, j⟩, valid_of_mk d k m i j hk hm hi hj, ?_⟩
+    rw [(toRing_spec_mk d k m i j hk hm hi hj).1, e1, e2]
+  unfold ringLen at hx
+  by_cases c1 : t < nside d
+  · rw [if_pos c1] at hx
+    obtain ⟨m, i, j, hm, hi, hj, e1, e2⟩ := surj_north (nside d) t x c1 hx
+    exact ⟨0, m, i, j, by omega, hm, hi, hj, e1, e2⟩
+  by_cases c2 : t + 1 < 3 * nside d
+  · rw [if_neg c1, if_pos c2] at hx
+    obtain ⟨k, m, i, j, hk, hm, hi, hj, e1, e2⟩ := surj_eq d t x (by omega) (by omega) hx
+    have hr : ringOf (nside d) ⟨4 * k + m, i, j⟩ = t := by rw [ringOf_mk _ _ _ _ _ hm]; omega
+    refine ⟨k, m, i, j, hk, hm, hi, hj, hr, ?_⟩
+    unfold inRing
+    dsimp only
+    rw [hr, if_neg c1, if_pos c2, e2]
+  · rw [if_neg c1, if_neg c2] at hx
+    obtain ⟨m, i, j, hm, hi, hj, e1, e2⟩ := surj_south (nside d) t x (by omega) ht hx
+    exact ⟨2, m, i, j, by omega, hm, hi, hj, e1, e2⟩
+
+/-- **(3)** `to_ring ∘ from_ring = id` on `[0, 12·4^d)`, and `from_ring` produces valid parts (depth `≤ 32`) -/
+theorem toRing_fromRing_parts (d : Nat) (RI : Nat → Nat) (hRI : ExactRI RI) (hd : d ≤ 32) (r : Nat)
+    (hr : r < 12 * 4 ^ d) : ∃ p, fromRingParts d RI r = some p ∧ Valid d p ∧ toRingParts d p = some r := by
+  obtain ⟨p, hv, hp⟩ := toRing_surj d r hr
+  exact ⟨p, fromRing_toRing_parts d RI hRI hd p hv r hp, hv, hp⟩
+
+/-! ## the RING order -/
+
+theorem inRing_lt_iff (d k m i j k' m' i' j' : Nat) (hk : k < 3) (hm : m < 4) (hi : i < nside d) (hj : j < nside d)
+    (hk' : k' < 3) (hm' : m' < 4) (hi' : i' < nside d) (hj' : j' < nside d)
+    (ht : ringOf (nside d) ⟨4 * k + m, i, j⟩ = ringOf (nside d) ⟨4 * k' + m', i', j'⟩) :
+    inRing (nside d) ⟨4 * k + m, i, j⟩ < inRing (nside d) ⟨4 * k' + m', i', j'⟩ ↔
+      xNat (nside d) ⟨4 * k + m, i, j⟩ < xNat (nside d) ⟨4 * k' + m', i', j'⟩ := by
+  have hns := nside_pos d
+  have e1 : (4 * k + m) % 4 = m := by omega
+  have e1' : (4 * k' + m') % 4 = m' := by omega
+  have hK : k = 0 ∨ k = 1 ∨ k = 2 := by omega
+  have hK' : k' = 0 ∨ k' = 1 ∨ k' = 2 := by omega
+  have hM : m = 0 ∨ m = 1 ∨ m = 2 ∨ m = 3 := by omega
+  have hM' : m' = 0 ∨ m' = 1 ∨ m' = 2 ∨ m' = 3 := by omega
+  have s := xNat_spec (nside d) k m i j hk hm hj
+  have s' := xNat_spec (nside d) k' m' i' j' hk' hm' hj'
+  unfold inRing
+  dsimp only
+  rw [← ht, e1, e1']
+  have hr := ringOf_mk (nside d) k m i j hm
+  have hr' := ringOf_mk (nside d) k' m' i' j' hm'
+  rw [← ht] at hr'
+  generalize ringOf (nside d) ⟨4 * k + m, i, j⟩ = t at *
+  clear ht
+  by_cases c1 : t < nside d
+  · rw [if_pos c1, if_pos c1]
+    have : k = 0 := by rcases hK with rfl | rfl | rfl <;> omega
+    subst this
+    have : k' = 0 := by rcases hK' with rfl | rfl | rfl <;> omega
+    subst this
+    generalize xNat (nside d) ⟨4 * 0 + m, i, j⟩ = X at *
+    generalize xNat (nside d) ⟨4 * 0 + m', i', j'⟩ = X' at *
+    generalize nside d = ns at *
+    rcases hM with rfl | rfl | rfl | rfl <;> rcases hM' with rfl | rfl | rfl | rfl
+    all_goals simp only [Nat.reduceEqDiff, if_false, Nat.reduceMul, Nat.reduceAdd, false_and, true_and,
+      false_or, not_false_eq_true] at s s'
+    all_goals omega
+  by_cases c2 : t + 1 < 3 * nside d
+  · rw [if_neg c1, if_pos c2, if_neg c1, if_pos c2]
+    have p := (toRing_eq d k m i j t hk hm hi hj (by rcases hK with rfl | rfl | rfl <;> omega) (by omega) (by omega)).2.1
+    have p' := (toRing_eq d k' m' i' j' t hk' hm' hi' hj' (by rcases hK' with rfl | rfl | rfl <;> omega) (by omega)
+      (by omega)).2.1
+    omega
+  · rw [if_neg c1, if_neg c2, if_neg c1, if_neg c2]
+    have : k = 2 := by rcases hK with rfl | rfl | rfl <;> omega
+    subst this
+    have : k' = 2 := by rcases hK' with rfl | rfl | rfl <;> omega
+    subst this
+    generalize xNat (nside d) ⟨4 * 2 + m, i, j⟩ = X at *
+    generalize xNat (nside d) ⟨4 * 2 + m', i', j'⟩ = X' at *
+    generalize nside d = ns at *
+    rcases hM with rfl | rfl | rfl | rfl <;> rcases hM' with rfl | rfl | rfl | rfl
+    all_goals simp only [Nat.reduceEqDiff, if_false, Nat.reduceMul, Nat.reduceAdd, false_and, true_and,
+      false_or, not_false_eq_true] at s s'
+    all_goals omega
+
+/-- the model's `centerXY` in closed form: `X = xNat`, `Y = 2·ns − 1 − ring` -/
+theorem centerXY_mk (d k m i j : Nat) (hk : k < 3) (hm : m < 4) (hi : i < nside d) (hj : j < nside d) :
+    centerXY d ⟨4 * k + m, i, j⟩ =
+      ((xNat (nside d) ⟨4 * k + m, i, j⟩ : Int),
+       2 * (nside d : Int) - 1 - (ringOf (nside d) ⟨4 * k + m, i, j⟩ : Int)) := by
+  have e1 : (4 * k + m) % 4 = m := by omega
+  have e2 : (4 * k + m) / 4 = k := by omega
+  have hK : k = 0 ∨ k = 1 ∨ k = 2 := by omega
+  have hM : m = 0 ∨ m = 1 ∨ m = 2 ∨ m = 3 := by omega
+  have s := xNat_spec (nside d) k m i j hk hm hj
+  have hr := ringOf_mk (nside d) k m i j hm
+  unfold centerXY
+  dsimp only
+  rw [e1, e2, hr]
+  generalize xNat (nside d) ⟨4 * k + m, i, j⟩ = X at *
+  generalize nside d = ns at *
+  rcases hK with rfl | rfl | rfl <;> rcases hM with rfl | rfl | rfl | rfl
+  all_goals simp only [Nat.reduceEqDiff, if_true, if_false, Nat.reduceMul, Nat.reduceAdd, false_and, true_and,
+      false_or, not_false_eq_true] at s ⊢
+  all_goals (apply Prod.ext <;> dsimp only)
+  all_goals (try split)
+  all_goals omega
+
+/-- **(4)** the RING number orders the cells by ring from north to south (decreasing `Y`) and, inside a ring, by
+    increasing abscissa `X ∈ [0, 8·nside)` of the centre — `(X, Y) = centerXY d p`; every depth -/
+theorem ring_order_parts (d : Nat) (p q : HashParts) (hp : Valid d p) (hq : Valid d q) (rp rq : Nat)
+    (h1 : toRingParts d p = some rp) (h2 : toRingParts d q = some rq) :
+    rp < rq ↔ ((centerXY d p).2 > (centerXY d q).2 ∨
+      ((centerXY d p).2 = (centerXY d q).2 ∧ (centerXY d p).1 < (centerXY d q).1)) := by
+  have hns := nside_pos d
+  obtain ⟨k, m, hk, hm, e, hi, hj⟩ := valid_mk hp
+  obtain ⟨k', m', hk', hm', e', hi', hj'⟩ := valid_mk hq
+  obtain ⟨s1, s2, s3⟩ := toRing_spec d p hp
+  obtain ⟨s1', s2', s3'⟩ := toRing_spec d q hq
+  rw [h1] at s1; rw [h2] at s1'
+  cases s1; cases s1'
+  have hX : ringOf (nside d) p = ringOf (nside d) q →
+      (inRing (nside d) p < inRing (nside d) q ↔ xNat (nside d) p < xNat (nside d) q) := by
+    rw [e, e']; exact inRing_lt_iff d k m p.i p.j k' m' q.i q.j hk hm hi hj hk' hm' hi' hj'
+  have c := centerXY_mk d k m p.i p.j hk hm hi hj
+  have c' := centerXY_mk d k' m' q.i q.j hk' hm' hi' hj'
+  rw [← e] at c; rw [← e'] at c'
+  rw [c, c']
+  dsimp only
+  rcases Nat.lt_trichotomy (ringOf (nside d) p) (ringOf (nside d) q) with h | h | h
+  · have := ringStart_next (nside d) hns h (by omega)
+    constructor
+    · intro _; left; omega
+    · intro _; omega
+  · have hX' := hX h
+    rw [h] at s2 ⊢
+    constructor
+    · intro hlt; right; exact ⟨rfl, by omega⟩
+    · intro hlt; omega
+  · have := ringStart_next (nside d) hns h (by omega)
+    constructor
+    · intro _; omega
+    · intro hlt; omega
+
 end Hpx.RingBij
